@@ -196,4 +196,14 @@ PROPS = {
         quick=dict(shards=16, checks=800, extra=[dict(run="TestLattice", shards=8)], timeout=900),
         thorough=dict(shards=16, checks=15000, extra=[dict(run="TestLattice", shards=16)], timeout=3400),
     ),
+    "C18": dict(
+        pkg="c18", race=True,
+        technique="property-based testing of generated concurrent workloads (rapid) under the Go race detector, each job compared with the same job run alone",
+        level_text="Exploration: generated job lists (2-64 Encode/Decode calls concentrated on 1-3 of the 14 registered codecs or on distinct low-level encoder/decoder objects; parameters nil / private / one shared GetDefaultParameters() object; drawn Gosched perturbations; GOMAXPROCS 1/2/4/16) run concurrently in a -race build; any race report whose stacks touch /repo and any result different from the solo run is a violation.",
+        level_note="Schedules are sampled, not controlled: the race detector only sees interleavings that happen. The statement's static obligation (no non-init write to package variables, no receiver-field writes in Codec methods) is a structural argument outside this technique family and is not decided here.",
+        rule=("rapid-generated concurrent workloads. Non-trivial: at least two jobs on the same codec instance measurably overlapped in time (start/end stamps). Distinct = hash of the case."),
+        assumptions=COMMON_ASSUME + ["the Go race detector reports every data race among the executed, conflicting accesses"],
+        quick=dict(shards=8, checks=25, extra=["TestSharedParams"], timeout=900, parallel=8, gomaxprocs=16),
+        thorough=dict(shards=8, checks=250, extra=["TestSharedParams"], timeout=3400, parallel=8, gomaxprocs=16),
+    ),
 }
